@@ -43,7 +43,10 @@ func getRamainsSum(states *[]types.State) sdk.DecCoins {
 	return sum
 }
 
-func (k Keeper) PrepareCoinsToDistribute(sources []*types.Account, ctx sdk.Context, states []types.State, subDistributorName string) sdk.DecCoins {
+// PrepareCoinsToDistribute collects the inflow of one sub-distributor. failedSweeps remembers, for the current
+// block, the source accounts whose sweep into the main account failed: they are not swept again by a later
+// sub-distributor of the same block (that would route their coins through other shares), but in the next block.
+func (k Keeper) PrepareCoinsToDistribute(sources []*types.Account, ctx sdk.Context, states []types.State, subDistributorName string, failedSweeps map[string]bool) sdk.DecCoins {
 	allCoinsToDistribute := sdk.NewDecCoins()
 	// the main account's not yet distributed coins must be determined before other
 	// sources are swept into it or have their remains re-queued
@@ -61,7 +64,7 @@ func (k Keeper) PrepareCoinsToDistribute(sources []*types.Account, ctx sdk.Conte
 		if source.Type == types.Main {
 			continue
 		}
-		coinsToDistribute := k.prepareCoinToDistributeForNotMainAccount(ctx, *source, states, subDistributorName)
+		coinsToDistribute := k.prepareCoinToDistributeForNotMainAccount(ctx, *source, states, subDistributorName, failedSweeps)
 		if len(coinsToDistribute) == 0 {
 			continue
 		}
@@ -81,12 +84,12 @@ func (k Keeper) prepareCoinToDistributeForMainAccount(ctx sdk.Context, states []
 	return coinsToDistribute
 }
 
-func (k Keeper) prepareCoinToDistributeForNotMainAccount(ctx sdk.Context, source types.Account, states []types.State, subDistributorName string) sdk.DecCoins {
+func (k Keeper) prepareCoinToDistributeForNotMainAccount(ctx sdk.Context, source types.Account, states []types.State, subDistributorName string, failedSweeps map[string]bool) sdk.DecCoins {
 	var coinsToDistribute sdk.DecCoins
 	if types.ModuleAccount == source.Type {
-		coinsToDistribute = k.prepareCoinToDistributeForModuleAccount(ctx, source, subDistributorName)
+		coinsToDistribute = k.prepareCoinToDistributeForModuleAccount(ctx, source, subDistributorName, failedSweeps)
 	} else if types.InternalAccount != source.Type {
-		coinsToDistribute = k.prepareCoinToDistributeForBaseAccount(ctx, source, subDistributorName)
+		coinsToDistribute = k.prepareCoinToDistributeForBaseAccount(ctx, source, subDistributorName, failedSweeps)
 	} else {
 		coinsToDistribute = sdk.NewDecCoins()
 
@@ -94,7 +97,10 @@ func (k Keeper) prepareCoinToDistributeForNotMainAccount(ctx sdk.Context, source
 	return prepareLeftCoinToDistribute(coinsToDistribute, source, states)
 }
 
-func (k Keeper) prepareCoinToDistributeForModuleAccount(ctx sdk.Context, source types.Account, subDistributorName string) sdk.DecCoins {
+func (k Keeper) prepareCoinToDistributeForModuleAccount(ctx sdk.Context, source types.Account, subDistributorName string, failedSweeps map[string]bool) sdk.DecCoins {
+	if failedSweeps[source.GetAccountKey()] {
+		return nil
+	}
 	coinsToSend := k.GetAccountCoinsForModuleAccount(ctx, source.Id)
 	coinsToDistribute := sdk.NewDecCoinsFromCoins(coinsToSend...)
 
@@ -102,6 +108,9 @@ func (k Keeper) prepareCoinToDistributeForModuleAccount(ctx sdk.Context, source 
 		err := k.SendCoinsFromModuleToModule(ctx, coinsToSend, source.Id, types.DistributorMainAccount)
 		if err != nil {
 			k.Logger(ctx).Error("prep coins module - send coins to main account", "subDistributorName", subDistributorName, "source", source, "error", err.Error())
+			if failedSweeps != nil {
+				failedSweeps[source.GetAccountKey()] = true
+			}
 			return nil
 		}
 	}
@@ -110,7 +119,10 @@ func (k Keeper) prepareCoinToDistributeForModuleAccount(ctx sdk.Context, source 
 	return coinsToDistribute
 }
 
-func (k Keeper) prepareCoinToDistributeForBaseAccount(ctx sdk.Context, source types.Account, subDistributorName string) sdk.DecCoins {
+func (k Keeper) prepareCoinToDistributeForBaseAccount(ctx sdk.Context, source types.Account, subDistributorName string, failedSweeps map[string]bool) sdk.DecCoins {
+	if failedSweeps[source.GetAccountKey()] {
+		return nil
+	}
 	srcAccount, _ := sdk.AccAddressFromBech32(source.Id)
 	// only spendable coins can be moved; asking for locked (vesting) coins makes the bank
 	// transfer fail half-way, after it already debited the denominations it could move
@@ -121,6 +133,9 @@ func (k Keeper) prepareCoinToDistributeForBaseAccount(ctx sdk.Context, source ty
 		err := k.SendCoinsToModuleAccount(ctx, coinsToSend, srcAccount, types.DistributorMainAccount)
 		if err != nil {
 			k.Logger(ctx).Error("prepare coin to distribute for internal account error", "error", err.Error())
+			if failedSweeps != nil {
+				failedSweeps[source.GetAccountKey()] = true
+			}
 			return nil
 		}
 	}
